@@ -1,5 +1,6 @@
 SPECIFICATION TSpec
 CONSTANTS
+  Flavour = "ip"
   MaxV = 6
   InitVers = {1}
   InitCaches = {0}
